@@ -577,6 +577,12 @@ func (s *scope) Close() error {
 	verifYield("scope.Close:done-closed")
 
 	if s.root {
+		// n.b. Wait for the report loop to exit, so that no periodic pass is
+		//      running, or can start, once Close has returned; only then may
+		//      the final report unregister and clear every scope.
+		verifYield("scope.Close:wait-loop:blocking")
+		s.wg.Wait()
+		s.registry.finalReport.Store(true)
 		s.reportRegistry()
 		verifYield("scope.Close:reported")
 		if closer, ok := s.baseReporter.(io.Closer); ok {
